@@ -11,7 +11,7 @@
 // while clear() runs uses freed memory; the unique_ptr itself is read and written concurrently.
 //
 // Schedule: 3 threads hammer put()/get()/remove() on a handful of keys, a 4th calls clear()
-// in a loop, for at most 2 s (or until the sanitizer speaks). Build with clang++
+// in a loop, for at most 1 s (or until the sanitizer speaks). Build with clang++
 // -fsanitize=thread (data race on cache_ / heap-use-after-free on the ExpiringCache) or
 // -fsanitize=address (heap-use-after-free); run.sh does both.
 //
@@ -136,7 +136,7 @@ int main()
       }
     });
 
-  auto deadline = std::chrono::steady_clock::now() + std::chrono::seconds(2);
+  auto deadline = std::chrono::steady_clock::now() + std::chrono::seconds(1);
   while (std::chrono::steady_clock::now() < deadline && !reported.load())
   {
     std::this_thread::sleep_for(std::chrono::milliseconds(10));
